@@ -622,6 +622,54 @@ class StatusSectionRoundTrip(Target):
         return []
 
 
+class ConfigParserValuesBounded:
+    """BOUNDED stand-in (native) for the ASSUMED contract of the in-memory parser used by the proofs above: the real
+    FlowConfigParser (the repository's subclass of configparser.ConfigParser, as configured by its __init__) writes and
+    reads option values unchanged -- for a pool of hostile values (separators, comment characters, a plain `%`, variable
+    references, quotes, several lines, non-ASCII).  Blanks AROUND a value are stripped by configparser (stated, excluded)."""
+    name = 'configparser-values[bounded,native]'
+    POOL = ['plain', 'a ; b', 'a # b', 'bash -c "x ; y | z"', 'x=y', 'k: v', '%(var)s', '--scale %(scale)s:%(n)s', '50%', 'date +%Y-%m-%d',
+            'printf "%d\\n" 3', '"quoted"', "it's", 'tab\tsep', 'semi;colon', '; leading', '# leading', 'two\nlines', 'UPPER lower',
+            'a  b', '[bracket]', 'back\\slash', 'ünï', '', 'stage0.A/out:ref stage1.B:copy', '$HOME/${X}']
+    KEYS = ['arguments', 'Key-Name', 'k8s-image']
+
+    def run(self, tier='quick', seed=0):
+        import io
+        bad, cases = [], 0
+        for key in self.KEYS:
+            for v in self.POOL:
+                cases += 1
+                what = None
+                try:
+                    w = dosini_mod.FlowConfigParser()
+                    w.add_section('Section')
+                    w.set('Section', key, v)
+                    buf = io.StringIO()
+                    w.write(buf)
+                    r = dosini_mod.FlowConfigParser()
+                    r.read_string(buf.getvalue())
+                    got = r.get('Section', key)
+                    if got != v:
+                        what = "value %r of option %r read back as %r" % (v, key, got)
+                except Exception as err:
+                    what = "value %r of option %r cannot be written / read: %s: %s" % (v, key, type(err).__name__, err)
+                if what:
+                    bad.append({"what": what, "replay": self._replay(key, v, what)})
+        return {"name": self.name, "bounded": True, "bound": "%d values x %d option names" % (len(self.POOL), len(self.KEYS)),
+                "cases": cases, "violations": bad[:3], "summary": "%d values, %d not read back as written" % (cases, len(bad))}
+
+    def _replay(self, key, v, what):
+        import json, os
+        base = os.environ.get('PYVC_OUT') or os.path.dirname(os.path.dirname(os.path.abspath(__file__)))
+        p = os.path.join(base, 'replays', 'C19')
+        os.makedirs(p, exist_ok=True)
+        fn = os.path.join(p, 'configparser_value.json')
+        json.dump({"property": "C19", "check": self.name, "option": key, "value": v, "failed": what,
+                   "how": "w = FlowConfigParser(); w.add_section('Section'); w.set('Section', option, value); w.write(f); "
+                          "FlowConfigParser().read_string(...).get('Section', option)"}, open(fn, 'w'), indent=1)
+        return fn
+
+
 class InstanceRoundTripNative:
     """BOUNDED stand-in (native, never counted as proved): whole synthetic instances (3 and 12 stages; local / lsf /
     kubernetes components, global / stage / component variables, an environment, status and output sections) are assembled
@@ -715,4 +763,4 @@ class InstanceRoundTripNative:
 TARGETS = [ParseRouting(), KnownOptionsTable(), ValidateComponentFrame(), DiscoverStages(), ParseStage(),
            OutputSectionRoundTrip(), StatusSectionRoundTrip()]
 LEMMAS = [KeyTables()]
-BOUNDED = [SectionRoundTrip(), InstanceRoundTripNative()]
+BOUNDED = [SectionRoundTrip(), InstanceRoundTripNative(), ConfigParserValuesBounded()]
